@@ -98,7 +98,8 @@ PROPS = {
         "technique": "online start-iff monitor with scripted gates and injected window clock",
         "jobs": [dict(FSM_JOB),
                  {"pkg": "motion", "test": "TestVerif_C04Window", "shards": (8, 16), "timeout": (300, 1800), "require": ["window_runs", "motion_frames_outside_window", "frames_at_exact_boundary", "windows_spanning_midnight", "recordings"]},
-                 {"pkg": "recorder-main", "test": "TestVerif_C04Pipe", "shards": (6, 6), "timeout": (300, 900), "require": ["pipeline_gate_runs", "pipeline_motion_files"]}],
+                 {"pkg": "recorder-main", "test": "TestVerif_C04Pipe", "shards": (6, 6), "timeout": (300, 900), "require": ["pipeline_gate_runs", "pipeline_motion_files"]},
+                 {"pkg": "recorder-main", "test": "TestVerif_C04PipeRetry", "shards": (8, 16), "timeout": (300, 900), "require": ["pipeline_retry_runs"]}],
     },
     "C05": {
         "title": "Throttling bounds recorded frames by the token bucket in every time interval",
@@ -110,7 +111,7 @@ PROPS = {
         "level_note": "main.go's wiring of the throttle (real clock) is checked one-sidedly by the pipeline job.",
         "technique": "offline interval-bound checker on a timestamped event log (injected clock)",
         "jobs": [dict(TH_JOB),
-                 {"pkg": "recorder-main", "test": "TestVerif_C05Pipe", "shards": (6, 16), "timeout": (600, 2400), "require": ["pipeline_runs", "frames_recorded_throttled", "throttled_files"]}],
+                 {"pkg": "recorder-main", "test": "TestVerif_C05Pipe", "shards": (8, 16), "timeout": (600, 2400), "require": ["pipeline_runs", "frames_recorded_throttled", "throttled_files", "throttle_cut_files"]}],
     },
     "C06": {
         "title": "Throttle: transparent within budget, clean cuts, restarts only with a full clip",
@@ -125,7 +126,8 @@ PROPS = {
         "level_note": "min-secs+preview-secs >= 1 (refill > 0) as the property requires.",
         "technique": "online per-operation monitor + pairing automaton on the wrapped recorder",
         "jobs": [dict(TH_JOB),
-                 {"pkg": "recorder-main", "test": "TestVerif_Daemon", "daemon": True, "shards": (1, 1), "timeout": (300, 600)}],
+                 {"pkg": "recorder-main", "test": "TestVerif_Daemon", "daemon": True, "shards": (1, 1), "timeout": (300, 600)},
+                 {"pkg": "recorder-main", "test": "TestVerif_C05Pipe", "shards": (8, 16), "timeout": (600, 2400), "require": ["pipeline_runs", "throttled_files", "throttle_cut_files"]}],
     },
     "C07": {
         "title": "Motion is reported exactly per the configured thresholds (fixed threshold)",
@@ -169,7 +171,7 @@ PROPS = {
         "title": "Only complete recordings ever bear the .cptv name; crashes leave no debris",
         "level": "fault_enumeration",
         "rule": "Scenarios through the real handleConn + CPTVFileRecorder in a child process (test binary re-executed): S1 one motion recording, S2 two back-to-back, S3 throttle cut, S4 test recording overlapping a motion recording, "
-                "S5 constant recorder on, S6 connection dropped in mid-frame (Stop path), S7 'clear' in mid-recording, S8 test recording and motion recording starting on the same frame, S9 throttle cut and restart within one trigger (quick: S1,S3,S4,S5,S6,S8). "
+                "S5 constant recorder on, S6 connection dropped in mid-frame (Stop path), S7 'clear' in mid-recording, S8 test recording and motion recording starting on the same frame, S9 throttle cut and restart within one trigger, S10 every start failing while the header is written (quick: S1,S3,S4,S5,S6,S8,S10). "
                 "An uncrashed run counts the hook hits H - the file recorder's own hooks (after create, after header, before/after each frame write, before Close, between Close and rename, after rename, abort path) and hook calls inserted by build overlay into a copy of go-cptv's file writer "
                 "(between its three file creations; in Close after flush, header patch, gzip copy, gzip flush/close, buffered flush, before/after closing and deleting the scratch file); then for EVERY n in 0..H the child SIGKILLs itself at hit n. "
                 "Oracles: I1 - every *.cptv decodes header to EOF with the stock reader, checked synchronously at every hook inside the child, by a free-running observer goroutine, and by the parent on the directory as found; "
@@ -220,13 +222,15 @@ PROPS = {
                 "a zero at every pixel position, zeros on the whole border only, several interior zeros: Process returns *lepton3.BadFrameErr <=> independent decode finds an interior zero; accepted frames reach the sink pixel- and telemetry-exact. "
                 "Part B: seeded streams (10..90 frames, 3-20 % bad frames incl. consecutive ones and one placed at an offset -2..trigger+min+2 around the first motion burst, test-recording requests): classification per frame, "
                 "no sink write / snapshot carries a rejected frame's id, motion recording closed at the bad frame, valid frames decoded exactly, detection verdicts equal to the twin run with the bad frames deleted. "
+                "Third job: the C14 pipeline workload (real handleConn, randomly segmented byte stream, a third of the connections with 2-10 % bad frames): stored frames and recordings must equal the reference pipeline's prediction, i.e. processing resumes with the frame after a bad one without losing alignment. "
                 "Non-trivial = stream containing bad frames / every Part A case.",
         "assumptions": COMMON_ASSUME + ["the FLIR telemetry layout belongs to the pinned lepton3 package; the harness encoder is self-tested against lepton3.ParseTelemetry at start-up (disagreement = harness fault, exit 2)",
                                         "the 'asks the camera daemon to restart' D-Bus call is only observable with a bus (not claimed here)"],
         "level_text": "Independent raw decoders + sink-trace scan + paired-execution comparator, exhaustive over zero positions for small frames and sampled over streams.",
         "level_note": "Writes to a closed continuous sink after a bad frame were C12's finding F4 (fixed).",
         "technique": "independent-decoder differential + sink-trace scan + paired-execution comparator",
-        "jobs": [{"pkg": "recorder-main", "test": "TestVerif_C13", "shards": (16, 16), "timeout": (300, 2400), "require": ["bad_frames_rejected", "valid_frames_accepted", "streams", "recordings_ended_by_bad_frame", "motion_frames", "valid_frames_compared"]},
+        "jobs": [{"pkg": "recorder-main", "test": "TestVerif_C13", "shards": (16, 16), "timeout": (300, 2400), "require": ["bad_frames_rejected", "valid_frames_accepted", "streams", "recordings_ended_by_bad_frame", "motion_frames", "valid_frames_compared", "streams_with_failing_stops"]},
+                 {"pkg": "recorder-main", "test": "TestVerif_C14Pipe", "race": True, "shards": (16, 16), "timeout": (600, 3000), "require": ["connections", "frames_verified_in_storage", "bad_frames_in_streams"]},
                  {"pkg": "recorder-main", "test": "TestVerif_Daemon", "daemon": True, "shards": (1, 1), "timeout": (300, 600)}],
     },
     "C14": {
@@ -247,7 +251,7 @@ PROPS = {
             {"pkg": "headers", "test": "TestVerif_C14Header", "tag": "386", "goarch": "386", "shards": (4, 8), "timeout": (300, 1800), "require": ["headers", "truncation_points"]},
             {"pkg": "leptond-main", "test": "TestVerif_C14Agree", "tag": "leptond", "shards": (1, 1), "timeout": (120, 120), "require": ["constant_sets_reported"]},
             {"pkg": "recorder-main", "test": "TestVerif_C14Agree", "tag": "recorder", "shards": (1, 1), "timeout": (120, 120), "require": ["constant_sets_reported"]},
-            {"pkg": "recorder-main", "test": "TestVerif_C14Pipe", "race": True, "shards": (16, 16), "timeout": (600, 3000), "require": ["connections", "frames_verified_in_storage", "clear_markers", "recordings_ended_by_clear", "motion_files"]},
+            {"pkg": "recorder-main", "test": "TestVerif_C14Pipe", "race": True, "shards": (16, 16), "timeout": (600, 3000), "require": ["connections", "frames_verified_in_storage", "clear_markers", "recordings_ended_by_clear", "motion_files", "bad_frames_in_streams"]},
         ],
     },
     "C15": {
@@ -278,7 +282,7 @@ PROPS = {
         "level_note": "A porcupine register model would also demand monotonic reads across requests, which the property does not state; the direct interval check is exactly the property and linear with unique ids.",
         "technique": "Go race detector + interval (freshness) checker over a logical-clock event log",
         "jobs": [{"pkg": "recorder-main", "test": "TestVerif_C16", "race": True, "shards": (6, 16), "gomaxprocs": [1, 2, 4, 16, 16, 3], "timeout": (900, 3000), "hang_is_violation": True,
-                  "require": ["snapshots_checked", "held_snapshots_rechecked", "requests_TakeSnapshot", "requests_TakeTestRecording", "requests_CameraInfo", "motion_recordings_matched", "test_recordings_found"]}],
+                  "require": ["snapshots_checked", "held_snapshots_rechecked", "reconnect_probes", "requests_TakeSnapshot", "requests_TakeTestRecording", "requests_CameraInfo", "motion_recordings_matched", "test_recordings_found"]}],
     },
     "C17": {
         "title": "Continuous recorder tiles the stream; a test recording is 21 consecutive frames",
